@@ -204,14 +204,18 @@ def SLOPE(*yx):
 
     # deviations from the (exactly computed) means: the textbook n*sum(xy)-sum(x)*sum(y)
     # form cancels catastrophically when the values are large compared with their spread
-    mean_x = statistics.mean(xs)
-    mean_y = statistics.mean(ys)
+    # ... nor does the deviation form help when the means are rounded to doubles first (and whole
+    # numbers beyond 2^53 with them): in exact arithmetic throughout, rounded once at the end
+    xs = [Fraction(x) for x in xs]
+    ys = [Fraction(y) for y in ys]
+    mean_x = sum(xs) / len(xs)
+    mean_y = sum(ys) / len(ys)
     dxs = [x - mean_x for x in xs]
-    denominator = math.fsum(dx * dx for dx in dxs)
+    denominator = sum(dx * dx for dx in dxs)
     if denominator == 0:
         return error.DIV_ZERO
 
-    return math.fsum(dx * (y - mean_y) for dx, y in zip(dxs, ys)) / denominator
+    return float(sum(dx * (y - mean_y) for dx, y in zip(dxs, ys)) / denominator)
 
 
 @dispatcher.register_for('LARGE')
